@@ -3,7 +3,7 @@
 \* never moves again (F-C03-2): CProgress / CStopWindow. Used by the self-test only.
 SPECIFICATION CSpec
 CONSTANTS
-  Variant = "fixed"
+  Variant = "catchup"
   E = 0
   VPerO = 1
   MaxZ = 2
